@@ -1,6 +1,7 @@
 import Mrpro.Model.CG
 import Mrpro.Model.Algebra
 import Mrpro.Lemmas.ReconL
+import Mrpro.Lemmas.ReconCGL
 /-! # C07 — reconstructions equal their defining linear-algebra problems
 
 * the direct reconstruction is the expression `(W F S)ᴴ y`, whose evaluation through the library's
@@ -35,5 +36,32 @@ theorem whitened_noise_cov {n m : Type} [Fintype n] [Fintype m] [DecidableEq n] 
     (L : Matrix n n F) (hL : IsUnit L.det) (X : Matrix n m F) (c : F) (hc : star c = c)
     (hN : c • (X * X.conjTranspose) = L * L.conjTranspose) :
     c • ((L⁻¹ * X) * (L⁻¹ * X).conjTranspose) = 1 := M.whitened_noise_cov L hL X c hc hN
+
+/-! ### the iterative reconstructions: `cg` on `(AᴴWA + λB) x = AᴴWy + λx₀`, i.e. `H x = b` with `H` HPD,
+in terms of the (regularised) least-squares functional `J(z) = ½⟨z, Hz⟩ − ⟨b, z⟩` -/
+
+/-- after `k+1` iterations the image minimises the functional over `start + span{r₀, H r₀, …, Hᵏ r₀}` — for every number
+of iterations, start value and data (C06.`cg_krylov_optimal` transported to the functional) -/
+theorem iterate_minimises_functional (B : V →ₗ[K] V →ₗ[K] K) (H : V →ₗ[K] V)
+    (symm : ∀ u v, B u v = B v u) (selfadj : ∀ u v, B (H u) v = B u (H v))
+    (posH : ∀ v, v ≠ 0 → 0 < B v (H v))
+    (b : V) (x0 : Option V) (maxIter : Nat) (tol2 : Option K)
+    (x : V) (reason : String) (tr : List (CGTrace V)) (xs : V) (hxs : H xs = b)
+    (hrun : cgRun (M.modOps' B) (fun v => H v) b x0 maxIter tol2 = .ok x reason tr)
+    (k : ℕ) (hk : k < tr.length) :
+    ∀ d ∈ Submodule.span K (Set.range (fun j : Fin (k + 1) => (H ^ (j : ℕ)) (b - H (M.start' b x0)))),
+      B tr[k].x (H tr[k].x) / 2 - B b tr[k].x
+        ≤ B (M.start' b x0 + d) (H (M.start' b x0 + d)) / 2 - B b (M.start' b x0 + d) :=
+  M.cg_iterate_minimises_functional B H symm selfadj posH b x0 maxIter tol2 x reason tr xs hxs hrun k hk
+
+/-- with at least `dim` iterations (tolerance 0) the reconstruction *is* the minimiser of the functional -/
+theorem enough_iterations_give_minimiser [Module.Finite K V] (B : V →ₗ[K] V →ₗ[K] K) (H : V →ₗ[K] V)
+    (symm : ∀ u v, B u v = B v u) (posB : ∀ v, v ≠ 0 → 0 < B v v)
+    (selfadj : ∀ u v, B (H u) v = B u (H v)) (posH : ∀ v, v ≠ 0 → 0 < B v (H v))
+    (b : V) (x0 : Option V) (maxIter : Nat) (hn : Module.finrank K V ≤ maxIter)
+    (x : V) (reason : String) (tr : List (CGTrace V))
+    (hrun : cgRun (M.modOps' B) (fun v => H v) b x0 maxIter none = .ok x reason tr) :
+    ∀ z, B x (H x) / 2 - B b x ≤ B z (H z) / 2 - B b z :=
+  M.cg_result_minimises_functional B H symm posB selfadj posH b x0 maxIter hn x reason tr hrun
 
 end C07
